@@ -25,12 +25,13 @@ RULE = BOUND + ("; one case = one (grid or run, data set, lambda, mass lumping, 
 BUDGET = {"quick": 60.0, "thorough": 840.0}
 
 CLAUSES = {
-    "B.R.gram": "analytic system matrix == Gram matrix of the hat basis (exact piecewise integration) + lambda on the diagonal, rel 1e-10",
+    "B.R.gram": "analytic system matrix == Gram matrix of the hat basis (exact piecewise integration) + lambda on the diagonal, "
+                "rel 1e-10 (uniform grids) / 1e-8 (non-uniform grids, point levels <= 6)",
     "B.R.numeric": "numerically integrated system matrix (full, or its mass-lumped diagonal) == Gram matrix + lambda on the diagonal, "
                    "rel 1e-6 (quadrature tolerance)",
     "B.R.spd": "system matrix is exactly symmetric and its smallest eigenvalue is > 0",
     "B.R.lumped": "mass-lumped form == diagonal of the Gram matrix (uniform grid: the common diagonal value, with or without lambda; "
-                  "non-uniform grid: Gram diagonal + lambda), rel 1e-10",
+                  "non-uniform grid: Gram diagonal + lambda), rel 1e-10 / 1e-8",
     "B.rhs.mean": "right-hand side == (1/M) sum_i sign_i * phi_j(x_i) for every basis function j, abs 1e-12, on every size path",
     "B.hat.agree": "scalar, vectorised and completely vectorised hat evaluations == reference hat (and hence each other), abs 1e-12, "
                    "incl. points on cell boundaries, grid points and the domain boundary",
@@ -467,7 +468,9 @@ def numeric_class(dev, ref_diag_scale):
 
 def check_matrix(ctx, R, Gref, lam, masslumping, numeric, stripes, site, uniform):
     import numpy as np
-    rel = 1e-6 if numeric else 1e-10
+    # uniform entries are products of powers of two (exact); the analytic non-uniform entries are differences of cubic antiderivatives
+    # with slope m = 1/h: cancellation costs about 1e-16 * m^3 relative (1e-10 observed at point level 6), hence 1e-8 inside the bound
+    rel = 1e-6 if numeric else (1e-10 if uniform else 1e-8)
     n = Gref.shape[0]
     dg = np.diag(Gref)
     if masslumping:
